@@ -74,6 +74,20 @@ def file_read_once(prog, cg, D):
     D.decide(any(is_method_call(c, "parse_file") for c in calls_in(hi.node)), fkey(hi, "imports-through-parse_file"), where(hi), "imports go through parse_file", "handle_import does not go through parse_file")
 
 
+def prog_field_index(prog, f, call, field):
+    """position of dataclass field `field` in the class constructed by `call` (None when unknown)"""
+    cn = norm(call.func).split(".")[-1]
+    ci = f.module.classes.get(cn)
+    if ci is None:
+        return None
+    names = [n.target.id for n in ci.node.body if isinstance(n, ast.AnnAssign) and isinstance(n.target, ast.Name)]
+    return names.index(field) if field in names else None
+
+
+def prog_first_field_is_name(prog, f, call):
+    return prog_field_index(prog, f, call, "name") == 0
+
+
 def run(prog: Program, chk: Check):
     cg = callgraph.get(prog)
     chk.explanation = (
@@ -132,8 +146,21 @@ def run(prog: Program, chk: Check):
                         # synthesised reserved name: f"_RESERVED_{id:06d}" with the same id passed as id=
                         defs = [d for d in (dataflow.definitions(cf.node, ap) if ap else []) if d[0] != "param"]
                         synth = False
-                        if isinstance(actual, ast.JoinedStr):
+                        if isinstance(actual, (ast.JoinedStr, ast.BinOp, ast.Call)):
                             defs = [("assign", actual)]  # the synthesised name is written in place
+                        idarg_ = None
+                        for a in cc.args[1:]:
+                            if isinstance(a, ast.Call) and norm(a.func) == "dict":
+                                idarg_ = next((path_of(k.value) for k in a.keywords if k.arg == "id"), None)
+                        if len(defs) == 1 and isinstance(defs[0][1], ast.BinOp) and isinstance(defs[0][1].op, ast.Mod) and isinstance(defs[0][1].left, ast.Constant) \
+                                and isinstance(defs[0][1].left.value, str):
+                            # "_RESERVED_%06d" % id
+                            fmt = defs[0][1].left.value
+                            synth = fmt.startswith("_RESERVED_") and fmt.count("%") == 1 and fmt.rstrip()[-1] == "d" and idarg_ is not None and path_of(defs[0][1].right) == idarg_
+                        if len(defs) == 1 and isinstance(defs[0][1], ast.Call) and isinstance(defs[0][1].func, ast.Attribute) and defs[0][1].func.attr == "format" \
+                                and isinstance(defs[0][1].func.value, ast.Constant) and isinstance(defs[0][1].func.value.value, str) and len(defs[0][1].args) == 1:
+                            fmt = defs[0][1].func.value.value
+                            synth = fmt.startswith("_RESERVED_") and fmt.count("{") == 1 and idarg_ is not None and path_of(defs[0][1].args[0]) == idarg_
                         if len(defs) == 1 and isinstance(defs[0][1], ast.JoinedStr):
                             js = defs[0][1]
                             fv = [v for v in js.values if isinstance(v, ast.FormattedValue)]
@@ -182,7 +209,50 @@ def run(prog: Program, chk: Check):
                 stray = [x for x in list(walk_local(l1)) if isinstance(x, (ast.Break, ast.Continue, ast.Return, ast.Raise)) and not any(a is i_ for i_ in ifs for a in ancestors(x))]
                 if len(ifs) == 1 and not stray and len([n for n in l1.body if isinstance(n, ast.For)]) == 1 and len(l2.body) == 1:
                     okcd, scan_fn, match_if = True, fu, ifs[0]
-    if okcd:
+    keyed = False
+    if not okcd:
+        # keyed form: `if getattr(self, namespace).get(name) is not None: raise` / `if name in table: raise`.  Equivalent to the
+        # scan of every entry's .name exactly when every store into every shared table keys the object by its own name
+        # (`self.T[k] = Kind(k, ...)` / `Kind(name=k, ...)`): checked for all stores below.
+        key_is_name = True
+        nst_ = 0
+        for f_ in par.methods.values():
+            fg_ = C.build(f_.node)
+            for table in SHARED:
+                for n_, t_ in table_stores(fg_, table):
+                    nst_ += 1
+                    k_ = path_of(t_.slice)
+                    v_ = n_.ast.value
+                    obj = v_
+                    if isinstance(v_, ast.Name):  # obj = Kind(name, ...); self.T[name] = obj
+                        ds_ = [d.value for d in walk_local(f_.node) if isinstance(d, ast.Assign) and len(d.targets) == 1 and path_of(d.targets[0]) == v_.id]
+                        obj = ds_[0] if len(ds_) == 1 else None
+                    named = isinstance(obj, ast.Call) and k_ is not None and (
+                        any(kw.arg == "name" and path_of(kw.value) == k_ for kw in obj.keywords) or
+                        (prog_field_index(prog, f_, obj, "name") is not None and len(obj.args) > prog_field_index(prog, f_, obj, "name")
+                         and path_of(obj.args[prog_field_index(prog, f_, obj, "name")]) == k_))
+                    if not named:
+                        key_is_name = False
+        for l1 in [n for n in walk_local(cd.node) if isinstance(n, ast.For) and isinstance(n.target, ast.Name) and norm(n.iter) == "namespaces"]:
+            tabs = {path_of(n.targets[0] if isinstance(n, ast.Assign) else n.target): norm(n.value) for n in l1.body
+                    if isinstance(n, (ast.Assign, ast.AnnAssign)) and n.value is not None and path_of(n.targets[0] if isinstance(n, ast.Assign) else n.target)}
+            ifs_ = [n for n in l1.body if isinstance(n, ast.If)]
+            rest = [n for n in l1.body if not isinstance(n, (ast.If, ast.Assign, ast.AnnAssign))]
+            if len(ifs_) != 1 or rest or ifs_[0].orelse:
+                continue
+            t = ifs_[0].test
+            txt = norm(t)
+            for k_, v_ in tabs.items():
+                txt = txt.replace(f"{k_}.get(", f"{v_}.get(").replace(f" in {k_}", f" in {v_}")
+            tab = f"getattr(self, {l1.target.id})"
+            lookups = (f"{tab}.get(name) is not None", f"name in {tab}", f"(o := {tab}.get(name)) is not None")
+            import re as _re
+            ok_t = txt in lookups or bool(_re.fullmatch(r"\(\w+ := " + _re.escape(tab) + r"\.get\(name\)\) is not None", txt))
+            stray = [x for x in walk_local(l1) if isinstance(x, (ast.Break, ast.Continue, ast.Return))]
+            raises = isinstance(ifs_[0].body[-1], ast.Raise) and "DuplicateNameError" in norm(ifs_[0].body[-1])
+            if ok_t and not stray and raises and key_is_name and nst_ >= 5:
+                okcd, keyed = True, True
+    if okcd and not keyed:
         hit = match_if.body[-1]
         raises_here = isinstance(hit, ast.Raise) and "DuplicateNameError" in norm(hit)
         if not raises_here:
@@ -205,7 +275,7 @@ def run(prog: Program, chk: Check):
              "check_duplicate_name no longer compares against every entry of every namespace")
 
     # ---- I id registries ----------------------------------------------------------------------------------------
-    I = chk.rule("C12-I", "every store into message_ids / module_ids / host_ids is preceded by the whole-registry duplicate loop and the range test", 6,
+    I = chk.rule("C12-I", "every store into message_ids / module_ids / host_ids is preceded by the whole-registry duplicate loop and the range test", 4,
                  "a skipped duplicate or range test lets two definitions share an id or an id leave its range")
 
     def validator_shape(f, table, err, value_name):
@@ -272,11 +342,23 @@ def run(prog: Program, chk: Check):
                         res["range"] = t
         return res
 
-    vmi = prog.func(PAR, "Parser.validate_msg_id")
-    vparam = [p for p in vmi.params() if p != "self"][-1]
-    shp = validator_shape(vmi, "message_ids", "MessageIDError", vparam)
-    I.decide(shp["loop"] is not None, fkey(vmi, "duplicate-loop"), where(vmi), "loop over all message_ids comparing .value, raising MessageIDError", "validate_msg_id lacks the whole-registry duplicate loop")
-    I.decide(shp["range"] is not None, fkey(vmi, "range-test"), where(vmi), "range test raising RTMASyntaxError", "validate_msg_id lacks the range test")
+    # the message id validator: the method of the parser that holds the whole-registry duplicate test on message_ids and the
+    # range test for one of its parameters (validate_msg_id today; found by shape, so that a rename or a validator that also
+    # registers the id - `register_msg_id` - is still recognised)
+    vmi, vparam, shp = None, None, None
+    for cand in par.methods.values():
+        for p_ in [p for p in cand.params() if p != "self"]:
+            sh_ = validator_shape(cand, "message_ids", "MessageIDError", p_)
+            if sh_["loop"] is not None and sh_["range"] is not None and (vmi is None or cand.name == "validate_msg_id"):
+                vmi, vparam, shp = cand, p_, sh_
+    if vmi is None and "validate_msg_id" in par.methods:
+        vmi = par.methods["validate_msg_id"]
+        vparam = [p for p in vmi.params() if p != "self"][-1]
+        shp = validator_shape(vmi, "message_ids", "MessageIDError", vparam)
+    vname = vmi.name if vmi is not None else None
+    if vmi is not None:
+        I.decide(shp["loop"] is not None, fkey(vmi, "duplicate-loop"), where(vmi), "loop over all message_ids comparing .value, raising MessageIDError", "validate_msg_id lacks the whole-registry duplicate loop")
+        I.decide(shp["range"] is not None, fkey(vmi, "range-test"), where(vmi), "range test raising RTMASyntaxError", "validate_msg_id lacks the range test")
     nstores = 0
     for f in par.methods.values():
         fg = C.build(f.node)
@@ -285,17 +367,21 @@ def run(prog: Program, chk: Check):
                 nstores += 1
                 val = n.ast.value
                 vargs = [norm(a) for a in val.args] if isinstance(val, ast.Call) else []
-                if table == "message_ids":
-                    vcalls = [x for x in fg.nodes for c in node_calls(x) if is_method_call(c, "validate_msg_id") and len(c.args) == 2]
+                vcalls = [x for x in fg.nodes for c in node_calls(x) if vname and is_method_call(c, vname) and len(c.args) == 2] if table == "message_ids" and f is not vmi else []
+                if vcalls:
                     okv = False
                     for x in vcalls:
-                        c = [c for c in node_calls(x) if is_method_call(c, "validate_msg_id")][0]
+                        c = [c for c in node_calls(x) if is_method_call(c, vname)][0]
                         if len(vargs) >= 2 and norm(c.args[1]) == vargs[1] and norm(c.args[0]) == vargs[0]:
                             okv = not flow.must_precede(fg, [x], [n])
                     I.decide(okv, fkey(f, n.ast), where(f, n.ast), "validate_msg_id(name, id) on the stored name/id dominates the store",
                              f"{f.qual} registers a message id without validate_msg_id on the same (name, id)")
                 else:
+                    # the tests live in the storing function itself (a validator that registers, or a validator the analysis
+                    # expanded in place): they are about the value that is stored
                     vp = [p for p in f.params() if p != "self"][-1]
+                    if table == "message_ids" and f is not vmi and len(vargs) >= 2:
+                        vp = vargs[1]
                     shp = validator_shape(f, table, err, vp)
                     fg2 = shp["cfg"]
                     n2 = next((x for x in fg2.nodes if x.ast is n.ast and x.kind == n.kind), None)
@@ -308,8 +394,8 @@ def run(prog: Program, chk: Check):
                     stored_val = any(vp in flow.access_paths(a) for a in (val.args if isinstance(val, ast.Call) else []))
                     I.decide(okv and stored_val, fkey(f, n.ast), where(f, n.ast), f"duplicate loop ({err}) and range test dominate the store of `{vp}`",
                              f"{f.qual} registers into {table} without the exhausted duplicate loop raising {err} / the range test on `{vp}`")
-    if nstores < 4:
-        raise AnalysisError(f"anchor vanished: expected >= 4 id registry stores, found {nstores}")
+    if nstores < 3:  # one per registry (message ids may be stored by each handler or once by the validator)
+        raise AnalysisError(f"anchor vanished: expected >= 3 id registry stores, found {nstores}")
     # no other writer of the id registries outside Parser methods
     for f in m.functions.values():
         if f.cls is par:
@@ -333,10 +419,23 @@ def run(prog: Program, chk: Check):
             okr = len(sdef) == 1 and len(edef) == 1 and "'start'" in norm(sdef[0][1]).replace('"', "'") and "'end'" in norm(edef[0][1]).replace('"', "'")
     R.decide(okr, fkey(hr, "range(start, end + 1)"), where(hr), "range(start, end + 1) over the two regex groups", "reserved range is not expanded as range(start, end + 1) of the parsed bounds")
     acc = None
+    nested = False  # the accumulator holds one span (range / 1-tuple) per entry instead of the flat ids
     for c in calls_in(hr.node):
-        if is_method_call(c, "extend") and c.args and any(x is rngs[0] for x in ast.walk(c.args[0])) if rngs else False:
+        if is_method_call(c, ("extend", "append")) and c.args and any(x is rngs[0] for x in ast.walk(c.args[0])) if rngs else False:
             acc = path_of(recv_of(c))
-    loops = [lp for lp in walk_local(hr.node) if isinstance(lp, ast.For) and acc and path_of(lp.iter) == acc]
+            nested = c.func.attr == "append"
+
+    def iterates_acc(it):
+        if not acc:
+            return False
+        if not nested:
+            return path_of(it) == acc
+        # chain.from_iterable(acc) / chain(*acc)
+        if isinstance(it, ast.Call) and norm(it.func).split(".")[-2:] == ["chain", "from_iterable"] and len(it.args) == 1 and path_of(it.args[0]) == acc:
+            return True
+        return isinstance(it, ast.Call) and norm(it.func).split(".")[-1] == "chain" and len(it.args) == 1 and isinstance(it.args[0], ast.Starred) and path_of(it.args[0].value) == acc
+
+    loops = [lp for lp in walk_local(hr.node) if isinstance(lp, ast.For) and iterates_acc(lp.iter)]
     okl = False
     if loops:
         lp = loops[-1]
@@ -346,7 +445,8 @@ def run(prog: Program, chk: Check):
         idpass = any(isinstance(a, ast.Call) and norm(a.func) == "dict" and any(k.arg == "id" and path_of(k.value) == idv for k in a.keywords) for c in hs for a in c.args)
         okl = bool(uncond) and idpass and not any(isinstance(s, (ast.Break, ast.Continue)) for s in walk_local(lp))
     R.decide(okl, fkey(hr, "register-every-id"), where(hr), "every collected id is registered through handle_signal(dict(id=id, ...))", "not every reserved id is registered through handle_signal")
-    ints = [c for c in calls_in(hr.node) if is_method_call(c, "append") and path_of(recv_of(c)) == acc]
+    ints = [c for c in calls_in(hr.node) if is_method_call(c, "append") and path_of(recv_of(c)) == acc and c.args and not any(x is rngs[0] for x in ast.walk(c.args[0]))
+            and (not nested or (isinstance(c.args[0], (ast.Tuple, ast.List)) and len(c.args[0].elts) == 1))] if rngs else []
     R.decide(bool(ints), fkey(hr, "single-ids"), where(hr), "single integer entries are collected too", "single integer reserved entries are not collected")
 
     # ---- D a file is read once ---------------------------------------------------------------------------------------------
